@@ -41,6 +41,10 @@ func runC12(cases string, res *Result) {
 			}
 		}
 		c["readable"] = evalCaseSources(c)
+		if c["selfcontained"] == true {
+			// every macro of the case is within the hypotheses of the theorem C12_paths_agree (decided by the extracted c12_env_okb)
+			res.Hist["theorem-covered:C12_paths_agree"]++
+		}
 
 		ee := newEvalEngine(c)
 		if g, ok := c["globals"].(map[string]interface{}); ok {
